@@ -60,7 +60,7 @@ def mksum(rng, earlier, first=None):
 
 
 def mktag(rng, j, profile):
-    k = rng.choice(profile.get('tags', ['wait', 'soft', 'oneof', 'ordisabled']))
+    k = rng.choice(profile.get('tags', ['wait', 'soft', 'oneof', 'ordisabled', 'oneofopt']))
     if k == 'wait':
         others = profile.get('_ids') or [j]
         if rng.random() < profile.get('p_wait2', 0.3) and others:
@@ -76,6 +76,13 @@ def mktag(rng, j, profile):
         return oneof(rng.choice(['kind', 'result', 'which']), {o: ref('steps.%s.outputs.%s' % (j, o)) for o in outs})
     if k == 'ordisabled':
         return ordisabled('steps.%s.outputs%s' % (j, rng.choice(['.success', '.success', ''])))
+    if k == 'oneofopt':
+        # a one-of whose options are maps carrying an optional field of their own (another step's output)
+        others = profile.get('_ids') or [j]
+        j2 = rng.choice(others)
+        return oneof(rng.choice(['kind', 'which']), {
+            'ok': tmap({'v': ref('steps.%s.outputs.success.tok' % j), 'w': opt('steps.%s.outputs.success' % j2, rng.random() < 0.5)}),
+            'bad': tmap({'v': ref('steps.%s.outputs.error.reason' % j)})})
     raise ValueError(k)
 
 
